@@ -42,13 +42,14 @@ type replayerWorld struct {
 	vr *sse.ValidReplayer
 	r  sse.Replayer
 
-	all      []modelEntry // every accepted put, in order
-	nextAuto uint64
-	tagSeq   int
-	gcLo     time.Duration // earliest / latest instant of the latest collection, over all readings of the documentation
-	gcHi     time.Duration
-	anyPut   bool
-	ops      []string
+	all         []modelEntry // every accepted put, in order
+	nextAuto    uint64
+	tagSeq      int
+	usedEmptyID bool
+	gcLo        time.Duration // earliest / latest instant of the latest collection, over all readings of the documentation
+	gcHi        time.Duration
+	anyPut      bool
+	ops         []string
 }
 
 func (w *replayerWorld) clockNow() time.Time { return w.epoch.Add(w.now) }
@@ -118,6 +119,12 @@ func (w *replayerWorld) doPut() {
 	}
 	if hasID {
 		idStr = "id" + strconv.Itoa(w.tagSeq)
+		if !w.usedEmptyID && kind == 0 && ch.Chance(1, 8, "empty id") {
+			// the empty string is a legal, set ID (distinct from an unset one)
+			idStr = ""
+			w.usedEmptyID = true
+			w.o.probe("event with the set-but-empty ID buffered")
+		}
 		m.ID = sse.ID(idStr)
 	}
 	before := m.String()
